@@ -18,6 +18,10 @@ GInit == p \in Tagged("pdus", Instances)
                \cup Tagged("strict", StrictCases)
 GSpec == GInit /\ [][UNCHANGED p]_p
 
+(* the PS38Pdu theorems on every generated PDU (same as MC_PS38Pdu) *)
+GTheorems == (p.w = "pdus") => /\ RoundTrip(p.v) /\ PrefixesIncomplete(p.v) /\ Writable(p.v)
+                               /\ \A t \in Tails : Framing(p.v, t)
+
 Emit ==
   LET c == p.v IN
   CASE p.w = "pdus" ->
